@@ -175,6 +175,7 @@ class Cell(NullCell):
 
     def calculate_hashes(self) -> None:
         # https://github.com/xssnick/tonutils-go/blob/master/tvm/cell/proof.go#L169
+        self._hashes, self._depths = [], []  # a repeated call recomputes, it does not append to what is there
         total_hash_count = self.level_mask.get_hash_index() + 1
         hash_count = total_hash_count
         if self.type_ == CellTypes.pruned_branch:
